@@ -4,7 +4,7 @@
 set -u
 D=$(readlink -f "$1"); W=/tmp/cs_$$
 rm -rf $W; cp -a /repo $W; git -C $W checkout -q -- . 
-build_demo() { gcc -O1 -g -w -I$W/src/include -I$W/src -o $W/demo_bin $D/demo.c $W/src/.libs/libivykis.a -lpthread 2>&1 | tail -3; }
+build_demo() { gcc -O1 -g -w -I$W/src/include -I$W/src -o $W/demo_bin $D/demo.c $W/src/.libs/libivykis.a ${EXTRA_LD:-} -lpthread -ldl 2>&1 | tail -3; }
 run_demo() { ( cd $D; timeout 90 $W/demo_bin >$W/demo.out 2>&1 ); echo $?; }
 ( cd $W && make -j8 >/dev/null 2>&1 )
 build_demo; r0=$(run_demo)
